@@ -17,7 +17,11 @@ for an acquisition that took longer than U/2, and a late one leaves a release be
 holder's greatest stamp in the log is t0 is granted to any other client's acquire with stamp > t0+U;
 (4) a release by a non-holder leaves the table unchanged; (5) a holder that shows up in time never
 loses its lock: at the log head a held lock changes hands only by the holder's release or by a command
-stamped later than lock time + U (`KeepMonitor`), and in the directed `stale` schedules the holder that
+stamped later than lock time + U, and once a prolongation stamped later than the holder's greatest stamp + U
+went through the log the lock is expired -- not held again without an acquire, granted to the next acquire
+(`KeepMonitor`); directed `stall` schedules: the holder stalls > U and resumes prolonging, the competitor's
+tryAcquire stamped in between is committed afterwards -- it must be granted and the old holder must not hold;
+in the directed `stale` schedules the holder that
 prolongs every < U/2 still answers isAcquired after catching up and nobody else was granted; (6) replicas
 also reach a log position through a snapshot -- `install` (a lagging replica receives another replica's
 `_serialize()` -> pickle -> `_deserialize()` into its existing consumer, as SyncObj does) and `restart` (state
@@ -196,6 +200,28 @@ class World(object):
                                            "what": "client %d acquired L%d, prolonged it every < U/2 (U=%d), never released; after catching up "
                                                    "(log position %d of %d) at time %d its isAcquired is False; table %s"
                                                    % (ev[1] + 1, ev[2], U, c["applied"], len(self.log), clock.now, lc.table_of(c["impl"]))})
+                elif k == "expect_granted":
+                    # directed `stall` schedules: the holder was silent for more than U before the competitor's stamp
+                    c = cl[ev[1]]
+                    # answers that came too late are turned into False by the late-acquire rule: not counted
+                    got = [a["ans"] for a in c["attempts"] if a["l"] == ev[2] and a["ans"] is not None
+                           and 2 * (a["ans"][0] - a["att"]) <= U]
+                    if not got or not self.silent_before(ev[1] + 1, ev[2]):
+                        self.hit("expect.skipped")
+                    elif self.hit("expect.competitor-granted-after-expiry") or not any(r is True for (_, r) in got):
+                        self.viols.append({"signature": "batteries.ReplLockManager:expired-lock-refused-to-competitor",
+                                           "what": "client %d tried L%d more than U=%d after the holder's last stamp and was answered %s; "
+                                                   "log %s" % (ev[1] + 1, ev[2], U, got, [lc.cmd_str(e[0]) for e in self.log])})
+                elif k == "expect_not_holds":
+                    c = cl[ev[1]]
+                    tries = [a for a in c["attempts"] if a["l"] == ev[2]]
+                    if len(tries) != 1 or c["applied"] != len(self.log) or not self.stalled(ev[1] + 1, ev[2]):
+                        self.hit("expect.skipped")
+                    elif self.hit("expect.stalled-holder-does-not-hold") or c["mgr"].isAcquired(lc.lock_name(ev[2])):
+                        self.viols.append({"signature": "batteries.ReplLockManager:holder-regained-expired-lock-without-tryAcquire",
+                                           "what": "client %d was silent for more than U=%d, did not call tryAcquire again, and at time %d its "
+                                                   "isAcquired(L%d) is True; table %s; log %s"
+                                                   % (ev[1] + 1, U, clock.now, ev[2], lc.table_of(c["impl"]), [lc.cmd_str(e[0]) for e in self.log])})
                 elif k == "expect_refused":
                     c = cl[ev[1]]
                     self.hit("expect.competitor-refused")
@@ -211,6 +237,12 @@ class World(object):
             for c in cl:
                 c["mgr"].destroy()
         return first
+
+    def silent_before(self, z, l):
+        return lc.silent_before([e[0] for e in self.log], self.U, z, l)
+
+    def stalled(self, y, l):
+        return lc.stalled([e[0] for e in self.log], self.U, y, l)
 
     def sync_due(self, c, d):
         """commands that appeared in the client's queue since the last look become due `d` later"""
@@ -377,6 +409,26 @@ def stale_case(rng):
     return {"U": U, "ncl": 3, "nlk": 2, "mode": "stale", "events": ev}
 
 
+def stall_case(rng, mode):
+    """Directed: Y holds L1 and prolongs, then stalls for more than U; competitor Z's tryAcquire is stamped
+    during the silence but enters the log only after Y has resumed prolonging (later stamps).  The lock expired:
+    Z must be granted, Y must not hold it again (it never called tryAcquire again)."""
+    U = rng.choice((4, 8, 10, 12))
+    Y, Z, X, l = 0, 1, 2, 1
+    step = max(1, U // 2 - 1)
+    ev = [("try", Y, l), ("flush", Y, 0), ("deliver", Y, 5), ("deliver", Z, 5)]
+    for _ in range(rng.randrange(0, 3)):
+        ev += [("adv", step), ("tick", Y), ("flush", Y, 0), ("deliver", Y, 5)]
+    ev += [("adv", U + rng.choice((1, 2, U))), ("try", Z, l), ("adv", rng.choice((0, 1)))]
+    for _ in range(rng.randrange(1, 3)):          # the holder resumes
+        ev += [("tick", Y), ("flush", Y, 0), ("deliver", Y, 5), ("adv", rng.choice((0, 1)))]
+    if rng.random() < 0.3:
+        ev += [("tick", X), ("flush", X, 0)]
+    ev += [("flush", Z, 0), ("deliver", Z, 9), ("deliver", Y, 9), ("deliver", X, 9), ("tick", Y), ("flush", Y, 0), ("deliver", Y, 9),
+           ("deliver", Z, 9), ("expect_granted", Z, l), ("expect_not_holds", Y, l)]
+    return {"U": U, "ncl": 3, "nlk": 2, "mode": mode, "events": ev}
+
+
 def snapshot_case(rng, mode):
     """Directed: Y holds L1 and prolongs every < U/2; Z's replica lags and is then brought up by Y's snapshot,
     or Z catches up and restarts from its own dump; Z then tries: refused, Y still holds, never two holders."""
@@ -421,6 +473,9 @@ def explore(ctx, bat, salt, ncases, max_viol=4):
             if i % 8 == 1:
                 case = snapshot_case(rng, mode)
                 cov["directed.snapshot"] = cov.get("directed.snapshot", 0) + 1
+            elif i % 8 == 5:
+                case = stall_case(rng, mode)
+                cov["directed.stall"] = cov.get("directed.stall", 0) + 1
             elif i % 4 == 0:
                 case = stale_case(rng) if mode == "stale" else directed_case(rng, mode)
                 cov["directed." + mode] = cov.get("directed." + mode, 0) + 1
@@ -435,7 +490,7 @@ def explore(ctx, bat, salt, ncases, max_viol=4):
         if first is not None:
             sig_of = sig_of_factory(case["mode"])
             passes = [False]
-            if "held-lock-dropped-before-expiry" in sig_of(w.viols[0]) or sig_of(w.viols[0]) == lc.SIG_SNAPSHOT:
+            if sig_of(w.viols[0]).startswith("batteries._ReplLockManagerImpl."):      # log-head / replica-level monitor
                 passes.append(True)         # also: what do the clients themselves see on this schedule?
             for mute in passes:
                 wm, fm = (w, first) if not mute else run_case(bat, case, True)
@@ -457,7 +512,9 @@ FLOORS = ["try", "release", "tick.prolong", "tick.skip", "deliver", "partition",
           "held.on-lagging-replica", "flush.overtaken", "mode.fifo", "mode.reorder",
           "directed.fifo", "directed.reorder", "directed.stale", "mode.stale", "flush.stamp-older-than-U",
           "pro.stale-while-fresh-lock-of-another-client", "expect.holder-still-holds", "expect.competitor-refused",
-          "directed.snapshot", "install.while-another-clients-lock-is-held", "restart.while-another-clients-lock-is-held"]
+          "directed.snapshot", "install.while-another-clients-lock-is-held", "restart.while-another-clients-lock-is-held",
+          "directed.stall", "expect.competitor-granted-after-expiry", "expect.stalled-holder-does-not-hold",
+          "pro.expires-lock.of-the-prolonging-holder", "acq.of-free-or-expired-lock"]
 
 
 def run(ctx):
